@@ -88,6 +88,7 @@ IO = {0x1111: dict(codec=('B', 1), mask={'a': 1, 'b': 2, 'c': 0x80}, mask_size=1
       0x5656: dict(codec=('B', 1), mask_size=0),                                         # a declared size of zero without masks is a valid (if useless) entry
       0x6666: dict(codec=('B', 1), mask={'big': 0x1FF}, mask_size=1),
       0x7777: dict(codec=('raw', 2), mask={'m': 0x00FF00, 'n': 1 << 55, 'o': 1 << 56}),
+      0x7878: dict(codec=('raw', 2)),                                                    # a codec of fixed length whose decode() takes whatever it is handed (no length check of its own)
       0x8888: dict(codec=('all', None), mask={'p': 1}, mask_size=0),
       0x9000: dict(codec=('all', None), composite=True)}
 
